@@ -361,6 +361,56 @@ def run_carrier(radio, agg):
     return n
 
 
+def run_misc(radio, agg):
+    """print_details / print_pipes only refresh shadows from the registers; load_ack enables what it needs and validates its arguments"""
+    n = 0
+    for name, args in (("print_details", [False]), ("print_details", [True]), ("print_pipes", [])):
+        f = radio.prog.method(radio.cls, name)
+        n += 1
+        # registers pinned (two different images): the many conditional strings of the printout would otherwise fork on every bit
+        for image in ({0: 0x0E, 1: 0x3F, 2: 0x03, 3: 3, 4: 0x5F, 5: 76, 6: 0x07, 0x1C: 0x3F, 0x1D: 0x05, 0x11: 32, 0x12: 32, 0x13: 32, 0x14: 32, 0x15: 32, 0x16: 32, 8: 0, 0x17: 0x11},
+                      {0: 0x73, 1: 0x15, 2: 0x3C, 3: 1, 4: 0x03, 5: 2, 6: 0x2D, 0x1C: 0x00, 0x1D: 0x02, 0x11: 1, 0x12: 8, 0x13: 9, 0x14: 10, 0x15: 11, 0x16: 12, 8: 0x5A, 0x17: 0x62}):
+          st = radio.fresh(image)
+          for out in radio.run(f, args, st):
+            if out.kind != "return":
+                agg.add("R03.4", f, "debug output does not raise", False, "%s raises %s" % (name, out.value.exc))
+                continue
+            wr = [e for e in out.trace if e.kind in ("regwrite", "regwriten", "cmdwriten", "cmd")]
+            agg.add("R03.2", f, "debug output writes nothing to the radio", not wr, "%s issues %d write(s)" % (name, len(wr)), wr[0].node if wr else None)
+            for r in regmap.CONFIG_REGS:
+                ok, det = radio.shadow_matches(out.state, r)
+                agg.add("R03.3", f, "shadow of %s at exit" % regname(r), ok, "%s(%s): %s" % (name, args, det))
+    f = radio.prog.method(radio.cls, "load_ack")
+    for pipe in (-1, 0, 3, 5, 6):
+        for ln in (0, 1, 32, 33):
+            for feat, aa, dyn in ((0x05, 0x3F, 0x3F), (0x07, 0x3F, 0x3F), (0x00, 0x3E, 0x00)):
+                n += 1
+                label = "load_ack(%d bytes, %d) with FEATURE=0x%02X EN_AA=0x%02X DYNPD=0x%02X" % (ln, pipe, feat, aa, dyn)
+                st = radio.fresh({contract.FEATURE: feat, contract.EN_AA: aa, contract.DYNPD: dyn})
+                buf = Bytes([(("param", "buf"), Const(ln))], "bytes", origin=("param", "buf"))
+                for out in radio.run(f, [buf, pipe], st):
+                    bad_pipe, bad_len = not 0 <= pipe <= 5, not 1 <= ln <= 32
+                    if bad_pipe or bad_len:
+                        exc = "IndexError" if bad_pipe else "ValueError"
+                        ok = out.kind == "raise" and out.value.exc == exc
+                        agg.add("R03.4", f, "bad pipe number -> IndexError, bad length -> ValueError, before anything reaches the radio", ok and not [e for e in out.trace if e.kind in ("regwrite", "cmdwriten", "cmd")],
+                                "%s: %s" % (label, ("raises " + out.value.exc) if out.kind == "raise" else "returns %r" % (out.value,)))
+                        continue
+                    if out.kind != "return":
+                        agg.add("R03.4", f, "valid ACK payload is accepted", False, "%s raises %s" % (label, out.value.exc))
+                        continue
+                    loads = [e for e in out.trace if e.kind == "cmdwriten"]
+                    if loads:
+                        agg.add("R03.5", f, "ACK payload is loaded with W_ACK_PAYLOAD | pipe", len(loads) == 1 and const_of(norm(loads[0].data[0])) == (0xA8 | pipe), "%s: command %r" % (label, loads[0].data[0]))
+                        fin = out.state.extra["regs"]
+                        okf = (const_of(norm(fin.get(contract.FEATURE))) or 0) & 6 == 6 and (const_of(norm(fin.get(contract.EN_AA))) or 0) & 1 and (const_of(norm(fin.get(contract.DYNPD))) or 0) & 1
+                        agg.add("R03.5", f, "ACK payloads are enabled (EN_ACK_PAY, EN_DPL, EN_AA.0, DYNPD.0) when one is loaded", bool(okf), "%s: FEATURE %r EN_AA %r DYNPD %r" % (label, fin.get(contract.FEATURE), fin.get(contract.EN_AA), fin.get(contract.DYNPD)))
+                    for r in regmap.CONFIG_REGS:
+                        ok, det = radio.shadow_matches(out.state, r)
+                        agg.add("R03.3", f, "shadow of %s at exit" % regname(r), ok, "%s: %s" % (label, det))
+    return n
+
+
 def run_address(radio, agg):
     """address(index): returns the shadow of TX_ADDR / RX_ADDR_Pn, IndexError above 5"""
     f = radio.prog.method(radio.cls, "address")
@@ -421,6 +471,7 @@ def run(ck):
     npipes = run_pipes(radio, agg)
     na = run_address(radio, agg)
     nc = run_carrier(radio, agg)
+    nm = run_misc(radio, agg)
     agg.flush()
     ck.floor("R03", "setter scenarios", ns, 250)
     ck.floor("R03", "getter scenarios", ng, 120)
